@@ -1,0 +1,250 @@
+//go:build verif
+// +build verif
+
+package cluster
+
+import (
+	"errors"
+	"sort"
+	"sync"
+)
+
+// VerifMemRegister is an in-memory PDRegister for verification harnesses (it lives in
+// this package because the epoch fields of the metadata records are unexported).
+// UpdateNamespacePartReplicaInfo is a compare-and-swap on the record's epoch like the
+// etcd register (oldGen == 0 creates, otherwise the stored epoch must equal oldGen).
+// Every call of it - successful or not - is reported to OnUpdate with the complete
+// record the caller wanted to write.
+type VerifMemRegister struct {
+	mu    sync.Mutex
+	metas map[string]*NamespaceMetaInfo
+	parts map[string]map[int]*PartitionReplicaInfo
+	epoch EpochType
+	// FailNext > 0: that many following replica-info updates fail like a lost
+	// compare-and-swap (nothing is written).
+	FailNext int
+	// OnUpdate is called (outside the lock) for every UpdateNamespacePartReplicaInfo.
+	OnUpdate func(u VerifUpdate)
+}
+
+// VerifUpdate describes one UpdateNamespacePartReplicaInfo call.
+type VerifUpdate struct {
+	Namespace string
+	Partition int
+	Info      PartitionReplicaInfo // what the caller asked to write (deep copy)
+	OldGen    EpochType            // the epoch the caller passed
+	CurGen    EpochType            // the stored epoch before the call (0: none)
+	NewGen    EpochType            // the stored epoch after the call
+	OK        bool
+}
+
+var errVerifCAS = errors.New("verif register: compare-and-swap failed (epoch mismatch)")
+
+func NewVerifMemRegister() *VerifMemRegister {
+	return &VerifMemRegister{
+		metas: make(map[string]*NamespaceMetaInfo),
+		parts: make(map[string]map[int]*PartitionReplicaInfo),
+	}
+}
+
+func (r *VerifMemRegister) pmi(ns string, p int) *PartitionMetaInfo {
+	m := r.metas[ns]
+	pr := r.parts[ns][p]
+	if m == nil || pr == nil {
+		return nil
+	}
+	return &PartitionMetaInfo{Name: ns, Partition: p, NamespaceMetaInfo: m.DeepClone(),
+		PartitionReplicaInfo: pr.DeepClone()}
+}
+
+func (r *VerifMemRegister) InitClusterID(id string)            {}
+func (r *VerifMemRegister) Start()                             {}
+func (r *VerifMemRegister) Stop()                              {}
+func (r *VerifMemRegister) GetAllPDNodes() ([]NodeInfo, error) { return nil, nil }
+
+func (r *VerifMemRegister) GetNamespacePartInfo(ns string, partition int) (*PartitionMetaInfo, error) {
+	r.mu.Lock()
+	defer r.mu.Unlock()
+	x := r.pmi(ns, partition)
+	if x == nil {
+		return nil, ErrKeyNotFound
+	}
+	return x, nil
+}
+
+func (r *VerifMemRegister) GetRemoteNamespaceReplicaInfo(ns string, partition int) (*PartitionReplicaInfo, error) {
+	r.mu.Lock()
+	defer r.mu.Unlock()
+	x := r.pmi(ns, partition)
+	if x == nil {
+		return nil, ErrKeyNotFound
+	}
+	return &x.PartitionReplicaInfo, nil
+}
+
+func (r *VerifMemRegister) GetNamespaceMetaInfo(ns string) (NamespaceMetaInfo, error) {
+	r.mu.Lock()
+	defer r.mu.Unlock()
+	m := r.metas[ns]
+	if m == nil {
+		return NamespaceMetaInfo{}, ErrKeyNotFound
+	}
+	return m.DeepClone(), nil
+}
+
+func (r *VerifMemRegister) GetNamespaceInfo(ns string) ([]PartitionMetaInfo, error) {
+	r.mu.Lock()
+	defer r.mu.Unlock()
+	pids := make([]int, 0)
+	for p := range r.parts[ns] {
+		pids = append(pids, p)
+	}
+	sort.Ints(pids)
+	out := make([]PartitionMetaInfo, 0, len(pids))
+	for _, p := range pids {
+		out = append(out, *r.pmi(ns, p))
+	}
+	return out, nil
+}
+
+func (r *VerifMemRegister) GetAllNamespaces() (map[string]map[int]PartitionMetaInfo, EpochType, error) {
+	r.mu.Lock()
+	defer r.mu.Unlock()
+	out := make(map[string]map[int]PartitionMetaInfo)
+	for ns, ps := range r.parts {
+		out[ns] = make(map[int]PartitionMetaInfo)
+		for p := range ps {
+			out[ns][p] = *r.pmi(ns, p)
+		}
+	}
+	return out, r.epoch, nil
+}
+
+func (r *VerifMemRegister) GetNamespacesNotifyChan() chan struct{} { return make(chan struct{}) }
+func (r *VerifMemRegister) GetNamespaceSchemas(ns string) (map[string]SchemaInfo, error) {
+	return nil, ErrKeyNotFound
+}
+func (r *VerifMemRegister) GetNamespaceTableSchema(ns string, table string) (*SchemaInfo, error) {
+	return nil, ErrKeyNotFound
+}
+func (r *VerifMemRegister) SaveKV(key string, value string) error { return nil }
+func (r *VerifMemRegister) GetKV(key string) (string, error)      { return "", ErrKeyNotFound }
+func (r *VerifMemRegister) Register(nodeData *NodeInfo) error     { return nil }
+func (r *VerifMemRegister) Unregister(nodeData *NodeInfo) error   { return nil }
+func (r *VerifMemRegister) GetClusterEpoch() (EpochType, error) {
+	r.mu.Lock()
+	defer r.mu.Unlock()
+	return r.epoch, nil
+}
+func (r *VerifMemRegister) GetClusterMetaInfo() (ClusterMetaInfo, error) {
+	return ClusterMetaInfo{}, nil
+}
+func (r *VerifMemRegister) AcquireAndWatchLeader(leader chan *NodeInfo, stop chan struct{}) {}
+func (r *VerifMemRegister) GetDataNodes() ([]NodeInfo, error)                             { return nil, nil }
+func (r *VerifMemRegister) WatchDataNodes(nodeC chan []NodeInfo, stopC chan struct{})      {}
+
+func (r *VerifMemRegister) CreateNamespace(ns string, meta *NamespaceMetaInfo) error {
+	r.mu.Lock()
+	defer r.mu.Unlock()
+	if r.metas[ns] != nil {
+		return ErrKeyAlreadyExist
+	}
+	r.epoch++
+	m := meta.DeepClone()
+	m.metaEpoch = r.epoch
+	r.metas[ns] = &m
+	r.parts[ns] = make(map[int]*PartitionReplicaInfo)
+	return nil
+}
+
+func (r *VerifMemRegister) UpdateNamespaceMetaInfo(ns string, meta *NamespaceMetaInfo, oldGen EpochType) error {
+	r.mu.Lock()
+	defer r.mu.Unlock()
+	cur := r.metas[ns]
+	if cur == nil {
+		return ErrKeyNotFound
+	}
+	if cur.metaEpoch != oldGen {
+		return errVerifCAS
+	}
+	r.epoch++
+	m := meta.DeepClone()
+	m.metaEpoch = r.epoch
+	r.metas[ns] = &m
+	meta.metaEpoch = r.epoch
+	return nil
+}
+
+func (r *VerifMemRegister) CreateNamespacePartition(ns string, partition int) error { return nil }
+func (r *VerifMemRegister) IsExistNamespace(ns string) (bool, error) {
+	r.mu.Lock()
+	defer r.mu.Unlock()
+	return r.metas[ns] != nil, nil
+}
+func (r *VerifMemRegister) IsExistNamespacePartition(ns string, partition int) (bool, error) {
+	r.mu.Lock()
+	defer r.mu.Unlock()
+	return r.parts[ns][partition] != nil, nil
+}
+func (r *VerifMemRegister) DeleteNamespacePart(ns string, partition int) error {
+	r.mu.Lock()
+	defer r.mu.Unlock()
+	delete(r.parts[ns], partition)
+	return nil
+}
+func (r *VerifMemRegister) DeleteWholeNamespace(ns string) error {
+	r.mu.Lock()
+	defer r.mu.Unlock()
+	delete(r.parts, ns)
+	delete(r.metas, ns)
+	return nil
+}
+
+func (r *VerifMemRegister) UpdateNamespacePartReplicaInfo(ns string, partition int,
+	replicaInfo *PartitionReplicaInfo, oldGen EpochType) error {
+	r.mu.Lock()
+	u := VerifUpdate{Namespace: ns, Partition: partition, Info: replicaInfo.DeepClone(), OldGen: oldGen}
+	var err error
+	ps := r.parts[ns]
+	if ps == nil {
+		err = ErrKeyNotFound
+	} else {
+		cur := ps[partition]
+		if cur != nil {
+			u.CurGen = cur.epoch
+		}
+		switch {
+		case r.FailNext > 0:
+			r.FailNext--
+			err = errVerifCAS
+		case oldGen == 0 && cur != nil:
+			err = ErrKeyAlreadyExist
+		case oldGen != 0 && (cur == nil || cur.epoch != oldGen):
+			err = errVerifCAS
+		default:
+			r.epoch++
+			c := replicaInfo.DeepClone()
+			c.epoch = r.epoch
+			ps[partition] = &c
+			replicaInfo.epoch = r.epoch
+		}
+		if now := ps[partition]; now != nil {
+			u.NewGen = now.epoch
+		}
+	}
+	u.OK = err == nil
+	cb := r.OnUpdate
+	r.mu.Unlock()
+	if cb != nil {
+		cb(u)
+	}
+	return err
+}
+
+func (r *VerifMemRegister) PrepareNamespaceMinGID() (int64, error) { return 0, nil }
+func (r *VerifMemRegister) UpdateNamespaceSchema(ns string, table string, schema *SchemaInfo) error {
+	return nil
+}
+
+// VerifReplicaEpoch reads the unexported epoch of a replica record.
+func VerifReplicaEpoch(p *PartitionReplicaInfo) EpochType { return p.epoch }
